@@ -10,7 +10,7 @@
   dispatcher goroutine with the set of sender goroutines it still waits for (`ackedBySubscribers`).
   What is abstracted: what a sender goroutine does inside a subscription is M_sub (GcSub.lean); here a sender simply
   finishes at some point (`senderDone`) – except when the consumer of that delivery first calls Publish itself
-  (`nested`): then the sender finishes exactly when that nested Publish has returned (the consumer acks afterwards).
+  (`nested`): then the sender can finish only after that nested Publish has returned (the consumer acks afterwards).
 
   Threads are entries of `ths`; a thread id is its index.  Atomic steps = lock operations / lock-delimited regions.
 -/
@@ -124,9 +124,9 @@ def stepPub (s : St) (i t : Nat) (rest : List Nat) (pc : PPc) (ao : Option (Nat 
     if (s.disp[d]?.getD []).isEmpty || s.closingSig then go .send s else none
   | .unlock =>
     let s1 := { s with tlocks := s.tlocks.filter (· != (t, i)), readers := s.readers.erase i }
-    -- the consumer that issued this nested Publish acks its delivery only now
+    -- the consumer that issued this nested Publish can ack its delivery only now: its sender may finish from here on
     let s2 := match ao with
-      | some (d, sid) => { finishSender s1 d sid with reserved := s1.reserved.erase (d, sid) }
+      | some (d, sid) => { s1 with reserved := s1.reserved.erase (d, sid) }
       | none => s1
     some (setTh s2 i (.pub t rest .retOk ao))
   | .retOk | .retErr => none
